@@ -708,6 +708,8 @@ def run(ctx):
     trace = []
     for p in progs:
         evaluate(ctx, p, res[p["name"]], trace, verd, stats)
+    sm = smuggle_program()
+    judge_smuggle(ctx, sm, rig_common.run(ctx, binary, [sm], par=1, name="smuggle")["smuggle"], verd)
     nviol = verd.flush()
     ctx.cov.update({"requests_replayed": stats.get("requests", 0), "table_rows_replayed": stats.get("rows", 0),
                     "private_requests_without_password": stats.get("private_unauthenticated", 0),
@@ -751,6 +753,72 @@ def run(ctx):
         "X-Session-Auth secrets are unguessable (crypto/rand, 128 bytes); the check tests comparison logic, not entropy",
         "default-mux side registrations are probed from a fixed list of well-known paths plus random ones, not enumerated",
     ]
+
+
+# ------------------------------------------------- bodies that name another session
+SMUGGLE = [
+    ("session-id", '{"Data": "NICK pwned$N", "ClientMessageId": $C, "Session": {"Id": @sid10:V@, "Reply": 0}}'),
+    ("session-id-and-type-delete", '{"Data": "bye", "ClientMessageId": $C, "Type": 1, "Session": {"Id": @sid10:V@}}'),
+    ("type-delete", '{"Data": "bye$N", "ClientMessageId": $C, "Type": 1}'),
+    ("type-config", '{"Data": "MaxSessions = 1\\nPostMessageCooloff = \\"0s\\"\\n# $N", "ClientMessageId": $C, "Type": 6, "Revision": 2}'),
+    ("type-create", '{"Data": "NICK made$N", "ClientMessageId": $C, "Type": 0}'),
+    ("lowercase-keys", '{"data": "NICK lower$N", "clientmessageid": $C, "session": {"id": @sid10:V@}, "type": 1}'),
+    ("id-and-times", '{"Data": "PING :x$N", "ClientMessageId": $C, "Id": {"Id": 3, "Reply": 7}, "UnixNano": 1, "RemoteAddr": "203.0.113.9", "Servers": ["x"]}'),
+]
+
+
+def smuggle_program():
+    """An authenticated client (its own id, its own secret) posts bodies with additional members naming another
+    session, another entry type, a revision ...: whatever is applied must still be a client line of the POSTING
+    session - the other sessions, the session set and the configuration stay as they were."""
+    steps = [{"op": "create_session", "as": "M"}, {"op": "login", "session": "M", "nick": "mallory"},
+             {"op": "create_session", "as": "V"}, {"op": "login", "session": "V", "nick": "victim"},
+             {"op": "post", "session": "V", "data": "JOIN #v"},
+             {"op": "create_session", "as": "W"}, {"op": "login", "session": "W", "nick": "witness"}]
+    for n, (name, body) in enumerate(SMUGGLE):
+        steps.append({"op": "probe", "tag": {"smuggle": "before", "name": name}})
+        steps.append({"op": "http", "method": "POST", "path": PREFIX + "{sid:M}/message", "session": "M", "auth": "correct",
+                      "body": body.replace("$N", str(n)).replace("$C", str(70000 + n)), "expand_body": True, "headers": {"Content-Type": "application/json"},
+                      "tag": {"smuggle": "post", "name": name}})
+        steps.append({"op": "probe", "tag": {"smuggle": "after", "name": name}})
+    return {"name": "smuggle", "opts": {}, "steps": steps}
+
+
+def judge_smuggle(ctx, prog, recs, verd):
+    by = rig_common.by_step(recs)
+    before = None
+    n = 0
+    for i, st in enumerate(prog["steps"]):
+        tag = st.get("tag") or {}
+        if "smuggle" not in tag:
+            continue
+        r = by[i][-1]
+        if r.get("died"):
+            raise vlib.Inconclusive("smuggle program: node died at step %d: %s" % (i, r.get("log", "")[-300:]))
+        pr = r.get("post") or r.get("pre")
+        if tag["smuggle"] == "before":
+            before = pr
+        elif tag["smuggle"] == "post":
+            status = r.get("status")
+        elif tag["smuggle"] == "after":
+            n += 1
+            changed = []
+            for alias in ("V", "W"):
+                a, b = rig_common.sess(before, alias), rig_common.sess(pr, alias)
+                for k in ("exists", "nick", "loggedIn", "lastCmid", "channels", "operator", "server"):
+                    if (a or {}).get(k) != (b or {}).get(k):
+                        changed.append("%s.%s: %r -> %r" % (alias, k, (a or {}).get(k), (b or {}).get(k)))
+            if len(before.get("sessions") or []) != len(pr.get("sessions") or []):
+                changed.append("number of sessions %d -> %d" % (len(before.get("sessions") or []), len(pr.get("sessions") or [])))
+            m0, m1 = rig_common.sess(before, "M"), rig_common.sess(pr, "M")
+            if (m0 or {}).get("exists") != (m1 or {}).get("exists"):
+                changed.append("M.exists: %r -> %r" % ((m0 or {}).get("exists"), (m1 or {}).get("exists")))
+            if changed:
+                verd.bad("body-names-another-session-or-type-" + tag["name"],
+                         "POST .../message by a session with its own secret and a body carrying extra members (%s) answered %s "
+                         "and changed what only other credentials may change: %s" % (tag["name"], status, "; ".join(changed)[:400]),
+                         {"program": prog, "variant": tag["name"]})
+    ctx.cov["smuggled_bodies"] = n
 
 
 def selftest(ctx, trace):
